@@ -4,6 +4,7 @@ import ast
 from ..cast import Poly, ex, poly_of, show
 from ..cbounds import Analyzer, NSPEC, ONE, access_sites, le, nonneg
 from ..report import AnalysisError, Report
+from ..model import call_name
 from . import cnative
 from .cnative import SPECPART_C, WRAP_C
 
@@ -170,6 +171,22 @@ def python_lints(repo, rep):
     rep.ok("R-C20-1", "package", f"{sum(1 for _ in repo.all_funcs())} functions scanned", "no int-valued attribute is subscripted")
     validation(repo, rep)
     kernel_guards(repo, rep)
+    empty_lists(repo, rep)
+    # (shared with R-C09-2) overlapping boxes are rejected with ValueError for EVERY pair of boxes
+    from .c09 import bbox_rule
+    sub9 = type(rep)("C20-sub9")
+    try:
+        bbox_rule(repo, sub9)
+    except AnalysisError:
+        pass
+    rep.rule("R-C20-10", "(shared with C09) Partition.bbox rejects overlapping boxes with ValueError for every pair, before any mask is built")
+    n9 = 0
+    for f_ in sub9.findings:
+        if "overlap" in f_.construct or "overlap" in f_.reason:
+            n9 += 1
+            rep.fail("R-C20-10", f_.file, f_.line, f_.func, f_.construct, f_.reason)
+    if not n9:
+        rep.ok("R-C20-10", "wavespectra/partition/partition.py bbox", "overlap test over all pairs", "invalid (overlapping) boxes raise ValueError")
     # tps reads freq[ipeak-1] and freq[ipeak+1]: the peak locator must never return an end bin (shared with C02)
     rep.rule("R-C02-2", "(shared with C02) _peak marks strict interior maxima only, so ipeak-1 and ipeak+1 exist")
     from .c02 import peak_definition
@@ -197,6 +214,64 @@ VALIDATORS = [
     ("wavespectra.core.xrstats.peak_directional_spread", (), "1-D spectrum"),
 ]
 VALUE_ERRORS = {"ValueError"}
+
+
+def empty_lists(repo, rep):
+    """R-C20-9: in the numpy partition kernels the list of detected partitions is EMPTY for a flat / constant spectrum (the native
+    routine then reports zero partitions): it may be converted with np.array (accepts []), but np.stack / concatenate / max / min
+    of it raise."""
+    rep.rule("R-C20-9", "a possibly empty list of detected partitions is never passed to a function that rejects empty input "
+                        "(np.stack / vstack / hstack / concatenate / max / min) without a non-emptiness guard")
+    RAISES = {"stack", "vstack", "hstack", "dstack", "concatenate", "max", "min", "amax", "amin", "argmax", "argmin", "nanmax", "nanmin"}
+    nl = 0
+    mod = repo.module("wavespectra.partition.partition")
+    for fi in mod.funcs.values():
+        if not fi.name.startswith("np_"):
+            continue
+        lists = set()
+        for a_ in ast.walk(fi.node):
+            if isinstance(a_, ast.Assign) and isinstance(a_.value, ast.List) and not a_.value.elts and isinstance(a_.targets[0], ast.Name):
+                lists.add(a_.targets[0].id)
+        # only those filled by append inside a loop
+        filled = set()
+        for l_ in ast.walk(fi.node):
+            if isinstance(l_, (ast.For, ast.While)):
+                for c_ in ast.walk(l_):
+                    if isinstance(c_, ast.Call) and isinstance(c_.func, ast.Attribute) and c_.func.attr == "append" and isinstance(c_.func.value, ast.Name) \
+                            and c_.func.value.id in lists:
+                        filled.add(c_.func.value.id)
+        # ... and lists built by a comprehension over range(<count>) / over another such list (count may be zero)
+        for a_ in ast.walk(fi.node):
+            if isinstance(a_, ast.Assign) and isinstance(a_.value, ast.ListComp) and isinstance(a_.targets[0], ast.Name):
+                it = a_.value.generators[0].iter
+                if (isinstance(it, ast.Call) and call_name(it) == "range" and len(it.args) == 1 and isinstance(it.args[0], ast.Name)) or \
+                        (isinstance(it, ast.Name) and it.id in filled):
+                    filled.add(a_.targets[0].id)
+        for c_ in ast.walk(fi.node):
+            if not isinstance(c_, ast.Call) or not c_.args:
+                continue
+            cn = call_name(c_).split(".")[-1]
+            a0 = c_.args[0]
+            if cn in RAISES and isinstance(a0, ast.Name) and a0.id in filled:
+                # still the raw list at this point? (not rebound to an array in between)
+                rebound = any(isinstance(x, ast.Assign) and any(isinstance(t, ast.Name) and t.id == a0.id for t in x.targets)
+                              and not isinstance(x.value, (ast.List, ast.ListComp)) and x.lineno < c_.lineno for x in ast.walk(fi.node))
+                if rebound:
+                    continue
+                nl += 1
+                guarded = False
+                p_ = getattr(c_, "_parent", None)
+                while p_ is not None and p_ is not fi.node:
+                    if isinstance(p_, ast.If) and any(isinstance(x, ast.Name) and x.id == a0.id for x in ast.walk(p_.test)):
+                        guarded = True
+                    p_ = getattr(p_, "_parent", None)
+                if guarded:
+                    rep.ok("R-C20-9", f"{fi.file}:{c_.lineno} {fi.short}", ast.unparse(c_)[:70], "under a guard on the list")
+                else:
+                    rep.fail("R-C20-9", fi.file, c_.lineno, fi.qualname, ast.unparse(c_)[:90],
+                             f"'{a0.id}' is empty when the watershed finds no partition (flat / constant / all-zero spectrum): {cn}([]) raises, "
+                             "so one calm spectrum anywhere in a dataset makes the whole call fail", anchor=f"empty-list:{fi.name}:{cn}")
+    rep.ok("R-C20-9", "wavespectra/partition/partition.py", f"{nl} uses of possibly empty partition lists in rejecting functions", "none unguarded")
 
 
 def validation(repo, rep):
